@@ -35,7 +35,23 @@ def main(argv=None) -> int:
     except ModuleNotFoundError:
         print(f"ANALYSIS-ERROR property={prop}: no check registered")
         return 2
-    return run_check(prop, a.tier, Path(a.root), mod.check)
+    extra = {}
+    if a.tier == "thorough" and Path(a.root).resolve() == Path(str(DEFAULT_ROOT)).resolve():
+        # the thorough tier also validates the checker itself for this property (both ways)
+        import selftest
+        st = selftest.run_for_property(prop)
+        extra["selftest"] = st
+        for line in st["log"]:
+            print("   selftest:", line)
+        if st["failed"]:
+            print(f"ANALYSIS-ERROR property={prop}: self-test of the checker failed ({st['failed']} expectation(s) not met): "
+                  "the check cannot be trusted until this is repaired")
+            return 2
+
+    def wrapped(rep):
+        rep.extra.update({k: {kk: vv for kk, vv in v.items() if kk != "log"} for k, v in extra.items()})
+        return mod.check(rep)
+    return run_check(prop, a.tier, Path(a.root), wrapped)
 
 
 if __name__ == "__main__":
